@@ -45,6 +45,20 @@ def product():
                         "want": "[" + ",".join("i:%d" % v for v in vals[:-1]) + "]", "why": "break leaves `%s`" % name})
             out.append({"src": "r = []; %s%s { if %s == %d { continue }; r += %s }; r" % (pre, loop, var, vals[0], var), "field": "result",
                         "want": "[" + ",".join("i:%d" % v for v in vals[1:]) + "]", "why": "continue skips the rest of the body of `%s`" % name})
+    # a bare return yields nil whatever value the statements before it left behind, at every depth
+    for head, var, vals in LOOPS:
+        name = head.split("{")[0][:24].strip()
+        pre, loop = ("", head) if ";" not in head or head.startswith("for x =") else (head.split(";")[0] + "; ", head.split(";", 1)[1].strip())
+        for body, what in (("return", "as the first statement of the body"), ("y = 7; return", "after a value-producing statement"),
+                           ("switch 3 {\ncase 3: return\n}", "as the first statement of a switch case"),
+                           ("if [1] { y = [1]; for z in [1, 2] { z; return } }", "in nested blocks")):
+            out.append({"src": "func f() { %s%s { %s }; return -1 }\n[f()]" % (pre, loop, body), "field": "result", "want": "[nil]",
+                        "why": "a bare return yields nil, %s of `%s`" % (what, name)})
+    for src in ("a = 7; return", "func f() { x = 5; return }\nf()", "func f() { 9; if true { 8; return } }\nf()", "func f() { x = [1, 2]; x; return }\n[f(), 1]",
+                "func f() { switch 3 {\ncase 3: return\n} }\nf()", "f = func() { \"s\"; return }; r = f(); r", "func f(a) { a; return }\nf(4)",
+                "func f() { try { 5; throw 1 } catch e { e; return } }\nf()", "func f() { defer func() { 3 }(); 4; return }\nf()"):
+        out.append({"src": src, "field": "result", "want": "[nil,i:1]" if src.endswith("1]") else "nil",
+                    "why": "a bare return yields nil whatever the statement before it evaluated to"})
     out.append({"src": "func f() { for k in {\"a\": 5} { return k + \"!\" }; return \"none\" }\nf()", "field": "result", "want": "s:6121",
                 "why": "return yields its value from a key-only for-in over a map"})
     out.append({"src": "func f() { x = 0; for x < 3 { x = x + 1; if x == 2 { return x * 10 } }; return -1 }\nf()", "field": "result", "want": "i:20",
